@@ -618,6 +618,20 @@ func runC08(c *Ctx) error {
 			c.R.Case(fmt.Sprintf("%s bs=%d", name, bs), true)
 			c.R.Count("walk:long chain", 1)
 		}
+		// page sizes at and beyond the native integer widths, from the beginning and from a key in the middle: whatever
+		// arithmetic is done with the size must not wrap
+		for _, bs := range []int64{2147483646, 2147483647, 2147483648, 4294967295, 4294967296, 4294967297, 9223372036854775807} {
+			for _, key := range []string{"-", t.chain[1].Merkle, t.chain[1000].Merkle, t.chain[t.best.Height-1].Merkle} {
+				op := fmt.Sprintf("roots %d %s", bs, key)
+				out, err := both(c, ci, l, name, ctx, op)
+				if err != nil {
+					return err
+				}
+				c08PageCheck(c, t, name, ctx, op, int(bs), key, out)
+				c.R.Case(name+op, true)
+				c.R.Count("page size at a native integer boundary", 1)
+			}
+		}
 	}
 	c.R.ModelOps = l.Ops
 	return nil
@@ -687,6 +701,9 @@ func c13LocatorCheck(c *Ctx, t *tree, name string, ctx []string, out string) {
 
 func runC13(c *Ctx) error {
 	rng := lib.Rng(c.Seed, "c13")
+	if c13PeerReplay(c) { // replay of the peer-level stream (c13_peer.go)
+		return c13PeerStream(c)
+	}
 	c.R.Rule = "stores = long chains (hundreds to thousands of headers) with stale branches at locator heights, plus small fork-rich stores; locator checked for start/end/membership/step rule; getheaders for locators that are subsets of stored hashes incl. stale / orphan / unknown ones in any order and the empty locator, stop hash in {zero, ahead, behind, stale, unknown, genesis}. Non-trivial = locator longer than 12 entries, or a getheaders whose locator mixes longest and non-longest hashes; distinct by (store, op)."
 	ci, err := newChainImpl("c13.db", lib.StackOpts{})
 	if err != nil {
@@ -947,7 +964,7 @@ func runC13(c *Ctx) error {
 		}
 	}
 	c.R.ModelOps = l.Ops
-	return nil
+	return c13PeerStream(c) // getheaders answered through the real peer (c13_peer.go)
 }
 
 func c13GetHeadersCheck(c *Ctx, t *tree, name string, ctx []string, op string, loc []string, stop string, out string) {
